@@ -131,7 +131,11 @@ func runOne(c *core.Ctx, name string, wl sx.Workload, seed int64) (*outcome, err
 func run(c *core.Ctx) error {
 	c.SetRule("one evaluation = one online copy (CopyTo) taken while 2 writers, forced merges, the persister and the purger run (copy parked between its files by hold rules until purge rounds ran), destination opened with bleve.Open and fully observed; TLC judges each against the replay of the recorded introduction order. " +
 		"distinct_nontrivial = distinct (prefix length, content) pairs of copies taken when at least one batch had been introduced")
-	if _, ok := c.ModelCheck("ScorchDisk", "ScorchDisk_mc_copy.cfg", core.Workers(8), core.Timeout(25*time.Minute), core.Heap(8000)); !ok {
+	mcfg := "ScorchDisk_mc_copy_quick.cfg"
+	if c.Thorough() {
+		mcfg = "ScorchDisk_mc_copy.cfg"
+	}
+	if _, ok := c.ModelCheck("ScorchDisk", mcfg, core.Workers(8), core.Timeout(25*time.Minute), core.Heap(8000)); !ok {
 		return nil
 	}
 	rng := rand.New(rand.NewSource(c.Seed * 31))
